@@ -941,8 +941,21 @@ func (obj *Package) DefLambda(name string, lam *Lambda, fc func(args List) Objec
 		}
 		obj.funcs[name] = &fi
 		if vv := obj.vars[name]; vv != nil && Unbound == vv.Val && vv.Export {
+			// The name was exported before the function was defined. The
+			// function takes the place of the symbol here and in the
+			// packages using this one.
 			fi.Export = true
 			delete(obj.vars, name)
+			for _, u := range obj.Users {
+				u.mu.Lock()
+				if u.vars[name] == vv {
+					delete(u.vars, name)
+				}
+				if u.funcs[name] == nil {
+					u.funcs[name] = &fi
+				}
+				u.mu.Unlock()
+			}
 		}
 	}
 	obj.mu.Unlock()
